@@ -7,6 +7,7 @@ REGISTRY = {
     "C06": "core",
     "C07": "core",
     "C08": "c08",
+    "C09": "c08",
     "C10": "core",
     "C12": "c12",
     "C13": "core",
